@@ -1,7 +1,227 @@
 import PrimitivModel.Model.Graph
+import PrimitivModel.Lemmas.GraphSweep
+/-!
+C06 — gradient accumulation and isolation protocol of `backward()`.
+
+All statements are about the executable model `Model/Graph.lean` that the driver
+`drv_graph` runs against the real `primitiv::Graph` (τ = `List Int` there); here τ and
+the tensor operations `T : TOps τ` are arbitrary unless laws are stated.  Helper
+definitions and lemmas: `Lemmas/GraphSweep.lean`.
+
+Vocabulary (all defined in `Lemmas/GraphSweep.lean`):
+* `s.gradAt a`            the gradient stored at node `a` (`none` = invalid)
+* `AllGradsInvalid s`     every node gradient is invalid
+* `ArgsBelow s`           arguments refer to smaller operator ids (what `add_operator` guarantees)
+* `SameFrame s s'`        `s'` differs from `s` at most in node gradients and parameter gradients:
+                          kinds, arguments, sizes, node *values*, parameter values, `log`, `rndPos`,
+                          `sample`, `failIn` are equal
+* `Anc s.argsOf i j`      operator `i` is operator `j` or produces a transitive argument of it
+* `s.mapPG f`             `s` with the table of parameter gradients replaced by `f s.params.grad`
+* `fwdPhase T s a`        the "force the forward operation" prefix of `backward`
+-/
 namespace Primitiv.C06
 open Primitiv.Graph
 
-theorem sweep_zero {τ} (T : TOps τ) (s : State τ) : sweep T 0 s = (s, .ok ()) := rfl
+variable {τ : Type}
+
+/-! ## 1. node gradients are invalid again after every pass -/
+
+/-- If all node gradients are invalid before `backward` and it succeeds, all node gradients are
+invalid after it. -/
+theorem node_grads_invalid_after (T : TOps τ) (s s' : State τ) (a : Addr)
+    (hg : AllGradsInvalid s) (hw : ArgsBelow s) (hb : backward T s a = (s', .ok ())) :
+    AllGradsInvalid s' :=
+  backward_allGradsInvalid T s s' a hg hw hb
+
+example : ∃ (s s' : State Int) (a : Addr), AllGradsInvalid s ∧ ArgsBelow s ∧ backward TInt s a = (s', .ok ()) :=
+  ⟨exSquare, _, ⟨1, 0⟩, allGradsInvalid_of_B (by decide), argsBelow_of_B (by decide), rfl⟩
+
+/-- … as an invariant: from a new graph, after any history of `add_operator`, `forward`,
+`backward`, parameter updates, gradient resets and fault schedules in which no `backward` threw and
+no `CHECK_NODE` aborted, all node gradients are invalid (and arguments refer to smaller ids). -/
+theorem node_grads_invalid_invariant (T : TOps τ) (params : Params τ) (sample : Nat → Nat → τ)
+    (hist : List (Cmd τ)) (s' : State τ) (hr : runHist T (emptyGraph params sample) hist = some s') :
+    AllGradsInvalid s' ∧ ArgsBelow s' :=
+  runHist_ginv T hist _ s' (emptyGraph_ginv params sample) hr
+
+example : ∃ s', runHist TInt (emptyGraph { value := fun _ => 3, grad := fun _ => 10 } fun _ _ => 0)
+    [.addOp (.param 0) [] [1], .addOp (.op mulSem) [⟨0, 0⟩, ⟨0, 0⟩] [1], .backward ⟨1, 0⟩,
+     .setValue 0 5, .backward ⟨1, 0⟩, .setGrad 0 0, .forward ⟨1, 0⟩] = some s' :=
+  ⟨_, rfl⟩
+
+/-- The invariant is preserved by every single operation of a history, from any state. -/
+theorem node_grads_invalid_step (T : TOps τ) (s s' : State τ) (c : Cmd τ)
+    (h : AllGradsInvalid s ∧ ArgsBelow s) (hr : c.run T s = some s') :
+    AllGradsInvalid s' ∧ ArgsBelow s' :=
+  Cmd.run_ginv T s s' c h hr
+
+/-! ## 2. values are not changed by the sweep -/
+
+/-- One iteration of the sweep changes no node value, size, kind or argument list, no parameter
+value, and neither `log`, `rndPos`, `sample` nor `failIn`. -/
+theorem values_unchanged_by_backwardStep (T : TOps τ) (s : State τ) (k : Nat) :
+    SameFrame s (backwardStep T s k).1 :=
+  backwardStep_sameFrame T s k
+
+/-- The same for the whole loop … -/
+theorem values_unchanged_by_sweep (T : TOps τ) (s : State τ) (k : Nat) :
+    SameFrame s (sweep T k s).1 :=
+  sweep_sameFrame T k s
+
+/-- … and for `backward`: everything it evaluates, it evaluates through its initial `forward`. -/
+theorem values_unchanged_by_backward (T : TOps τ) (s : State τ) (a : Addr) :
+    SameFrame (fwdPhase T s a).1 (backward T s a).1 := by
+  rw [backward_eq]
+  split
+  · unfold fwdPhase
+    rename_i hv
+    have : s.node? a = none := by
+      unfold State.validAddr at hv
+      unfold State.node?
+      cases ho : s.ops[a.oid]? with
+      | none => rfl
+      | some o =>
+        rw [ho] at hv
+        simp only [Bool.not_eq_true', decide_eq_false_iff_not, Nat.not_lt] at hv
+        simp only [List.getElem?_eq_none_iff]
+        exact hv
+    rw [this]
+    exact SameFrame.refl s
+  · rcases fwdPhase T s a with ⟨s1, r⟩
+    cases r with
+    | error e => exact SameFrame.refl _
+    | ok u => cases u; exact (seed_sameFrame T s1 a).trans (sweep_sameFrame T _ _)
+
+/-- What `SameFrame` gives pointwise: node values, the value a consumer sees, parameter values,
+the evaluation log and the position of the random stream. -/
+theorem values_unchanged_pointwise {s s' : State τ} (h : SameFrame s s') :
+    (∀ a, (s'.node? a).map (·.value) = (s.node? a).map (·.value)) ∧
+    (∀ a, s'.valueOf? a = s.valueOf? a) ∧
+    s'.params.value = s.params.value ∧ s'.log = s.log ∧ s'.rndPos = s.rndPos := by
+  refine ⟨fun a => ?_, fun a => skel_valueOf h.skel h.pvalue a, h.pvalue, h.log, h.rndPos⟩
+  have := skel_node h.skel a
+  cases h1 : s'.node? a <;> cases h2 : s.node? a <;> rw [h1, h2] at this <;> simp_all [NodeInfo.skel]
+
+/-- If the target already has a value, `backward` evaluates nothing at all. -/
+theorem values_unchanged_when_evaluated (T : TOps τ) (s : State τ) (a : Addr) (n : NodeInfo τ)
+    (hn : s.node? a = some n) (hv : n.value.isSome = true) : SameFrame s (backward T s a).1 := by
+  have h := values_unchanged_by_backward T s a
+  have : fwdPhase T s a = (s, .ok ()) := by simp [fwdPhase, hn, hv]
+  rw [this] at h
+  exact h
+
+/-! ## 3. parameters that are not ancestors of the target -/
+
+/-- The gradient of a parameter `p`, none of whose Parameter operators is an ancestor of the target,
+is not written by `backward`: the stored tensor afterwards *is* the stored tensor before, for any
+tensor type and any `add` (so bit for bit), whether or not `backward` succeeds. -/
+theorem non_ancestors_untouched (T : TOps τ) (s : State τ) (a : Addr) (p : Nat)
+    (hg : AllGradsInvalid s)
+    (hp : ∀ i, s.kindAt i = some (.param p) → ¬ Anc s.argsOf i a.oid) :
+    (backward T s a).1.params.grad p = s.params.grad p :=
+  backward_pgrad T s a p hg hp
+
+/-- parameter 1 does not occur in `exSquare` at all -/
+example : AllGradsInvalid exSquare ∧ ∀ i, exSquare.kindAt i = some (.param 1) → ¬ Anc exSquare.argsOf i 1 := by
+  refine ⟨allGradsInvalid_of_B (by decide), fun i hi => ?_⟩
+  exfalso
+  match i, hi with
+  | 0, hi => simp [State.kindAt, exSquare] at hi
+  | 1, hi => simp [State.kindAt, exSquare] at hi
+  | i + 2, hi => simp [State.kindAt, exSquare] at hi
+
+/-! ## 4. `backward` only adds -/
+
+/-- For an associative `add`: the result from any prior parameter gradients is the prior gradient
+plus (`shiftG`: `p ↦ add (g0 p) (·)`) the result `D` from the zero gradients `z`; success or failure
+and all other components of the state do not depend on the prior gradients.  No hypothesis on the
+state. -/
+theorem backward_adds (T : TOps τ) (hassoc : ∀ x y z : τ, T.add (T.add x y) z = T.add x (T.add y z))
+    (s : State τ) (a : Addr) (z : Nat → τ) (hz : ∀ p x, T.add x (z p) = x) :
+    (∀ p, (backward T s a).1.params.grad p =
+       T.add (s.params.grad p) ((backward T (s.mapPG fun _ => z) a).1.params.grad p)) ∧
+    (backward T s a).2 = (backward T (s.mapPG fun _ => z) a).2 ∧
+    (backward T s a).1.ops = (backward T (s.mapPG fun _ => z) a).1.ops := by
+  have h := backward_adds_gen T hassoc s a z hz
+  refine ⟨fun p => ?_, ?_, ?_⟩ <;> rw [h] <;> rfl
+
+example : (∀ x y z : Int, TInt.add (TInt.add x y) z = TInt.add x (TInt.add y z)) ∧
+    (∀ (p : Nat) (x : Int), TInt.add x ((fun _ => (0 : Int)) p) = x) :=
+  ⟨fun x y z => Int.add_assoc x y z, fun _ x => Int.add_zero x⟩
+
+/-- Without a neutral element: shifting the prior gradients by `g` in front shifts the result by `g`. -/
+theorem backward_adds_shift (T : TOps τ) (hassoc : ∀ x y z : τ, T.add (T.add x y) z = T.add x (T.add y z))
+    (s : State τ) (a : Addr) (g : Nat → τ) :
+    backward T (s.mapPG (shiftG T g)) a =
+      ((backward T s a).1.mapPG (shiftG T g), (backward T s a).2) :=
+  backward_shift T hassoc g a s
+
+/-- `k` calls add `k` times the same `D` (`addN T k g d = g + d + … + d`), and change nothing else,
+when the forward phase is a no-op (the target is evaluated: "values unchanged"). -/
+theorem k_backwards (T : TOps τ) (hassoc : ∀ x y z : τ, T.add (T.add x y) z = T.add x (T.add y z))
+    (s : State τ) (a : Addr) (z : Nat → τ) (hz : ∀ p x, T.add x (z p) = x)
+    (hg : AllGradsInvalid s) (hw : ArgsBelow s)
+    (hstable : fwdPhase T s a = (s, .ok ())) (hok : (backward T s a).2 = .ok ()) (k : Nat) :
+    iterBackward T a k s =
+      s.mapPG (fun _ p => addN T k (s.params.grad p) ((backward T (s.mapPG fun _ => z) a).1.params.grad p)) :=
+  iterBackward_grad T hassoc s a z hz hg hw hstable hok k
+
+/-- the state after one `backward` on `exSquare` satisfies the hypotheses of `k_backwards` -/
+example : let s := (backward TInt exSquare ⟨1, 0⟩).1
+    AllGradsInvalid s ∧ ArgsBelow s ∧ fwdPhase TInt s ⟨1, 0⟩ = (s, .ok ()) ∧ (backward TInt s ⟨1, 0⟩).2 = .ok () :=
+  ⟨allGradsInvalid_of_B (by decide), argsBelow_of_B (by decide), rfl, rfl⟩
+
+/-- Operators with an id `≥ k` are neither read nor written by `sweep T k`: appending any operators
+to the graph commutes with the sweep. -/
+theorem later_nodes_irrelevant (T : TOps τ) (extra : List (OpInfo τ)) (k : Nat) (s : State τ)
+    (hk : k ≤ s.ops.length) (hw : ArgsBelow s) :
+    sweep T k (s.appendOps extra) = ((sweep T k s).1.appendOps extra, (sweep T k s).2) :=
+  appendOps_sweep T extra k s hk hw
+
+example : (2 : Nat) ≤ exSquare.ops.length ∧ ArgsBelow exSquare := ⟨by decide, argsBelow_of_B (by decide)⟩
+
+/-- … and the same for the whole of `backward`, forward phase included: operators created after
+the target influence neither the resulting gradients nor success, and are themselves untouched. -/
+theorem later_nodes_irrelevant_backward (T : TOps τ) (extra : List (OpInfo τ)) (s : State τ) (a : Addr)
+    (hv : s.validAddr a = true) (hw : ArgsBelow s) :
+    backward T (s.appendOps extra) a = ((backward T s a).1.appendOps extra, (backward T s a).2) :=
+  appendOps_backward T extra s a hv hw
+
+example : exSquare.validAddr ⟨1, 0⟩ = true ∧ ArgsBelow exSquare := ⟨by decide, argsBelow_of_B (by decide)⟩
+
+/-! ## 5. blocked paths -/
+
+/-- Exact arithmetic (`x + zeros n = x`; every rule fed with zero gradients contributes zeros —
+`ZeroPreserving`): a parameter all of whose Parameter nodes lie in a set `Z` of nodes from which the
+target is reachable only through argument positions whose backward rule contributes nothing
+(`BlockedSet`, e.g. below `stop_gradient`) keeps the *value* of its gradient.  The sweep does reach
+these nodes: it zero-fills their gradients and adds zeros into them. -/
+theorem blocked_paths_add_zero_partial (T : TOps τ) (hz : ∀ n x, T.add x (T.zeros n) = x)
+    (Z : Addr → Prop) (s : State τ) (a : Addr) (p : Nat)
+    (hg : AllGradsInvalid s) (ha : ¬ Z a)
+    (hB : BlockedSet s.shape Z) (hP : ZeroPreserving T s.shape Z)
+    (hp : ∀ i, s.kindAt i = some (.param p) → Z ⟨i, 0⟩) :
+    (backward T s a).1.params.grad p = s.params.grad p :=
+  backward_pgrad_blocked T hz Z s a p hg ha hB hP hp
+
+/-- `y = stop_gradient(p0) + p1` over the integers, `Z = {the Parameter node of p0}` -/
+example : (∀ (n : Nat) (x : Int), TInt.add x (TInt.zeros n) = x) ∧
+    AllGradsInvalid (exBlocked TInt 3 10) ∧ ¬ ((⟨3, 0⟩ : Addr) = ⟨0, 0⟩) ∧
+    BlockedSet (exBlocked TInt 3 10).shape (fun b => b = ⟨0, 0⟩) ∧
+    ZeroPreserving TInt (exBlocked TInt 3 10).shape (fun b => b = ⟨0, 0⟩) ∧
+    (∀ i, (exBlocked TInt 3 10).kindAt i = some (.param 0) → (⟨i, 0⟩ : Addr) = ⟨0, 0⟩) :=
+  ⟨fun _ x => Int.add_zero x, allGradsInvalid_of_B (by decide), by decide, exBlocked_blockedSet _ _ _,
+   exBlocked_zeroPreserving _ _ _, fun i hi => by rw [exBlocked_kindAt _ _ _ i hi]⟩
+
+/-- The full statement "the gradient of such a parameter is not written at all" — i.e. the stored
+tensor is the same for *every* tensor type and `add`, as in `non_ancestors_untouched` — is FALSE for
+this code: see `Props/Findings/C06Blocked.lean` (`blocked_paths_written_witness`).  The sweep
+zero-fills the argument gradients of every enabled operator (graph.cc:210-212), so zeros are
+propagated below the blocker and finally `+=`-ed into the parameter. -/
+def blocked_paths_untouched_full : Prop :=
+  ∀ (τ : Type) (T : TOps τ) (Z : Addr → Prop) (s : State τ) (a : Addr) (p : Nat),
+    AllGradsInvalid s → ArgsBelow s → ¬ Z a → BlockedSet s.shape Z →
+    (∀ i, s.kindAt i = some (.param p) → Z ⟨i, 0⟩) →
+    (backward T s a).1.params.grad p = s.params.grad p
 
 end Primitiv.C06
